@@ -7,7 +7,7 @@ D=${1:-/repo}
 T=${2:-$D/target}
 cd "$D" || exit 2
 export CARGO_NET_OFFLINE=true CARGO_TARGET_DIR="$T"
-cargo nextest run --workspace --no-fail-fast --tool-config-file pb:/w/lib/nextest.toml --profile pb --test-threads 8 --offline >"$T/nextest.log" 2>&1
+rm -f "$T"/nextest/pb/junit.xml; cargo nextest run --workspace --no-fail-fast --tool-config-file pb:/w/lib/nextest.toml --profile pb --test-threads 8 --offline >"$T/nextest.log" 2>&1
 J=$(ls "$T"/nextest/pb/junit.xml 2>/dev/null)
 python3 - "$J" <<'P'
 import sys,json,xml.etree.ElementTree as ET
